@@ -5,6 +5,21 @@ def native(name="native", **kw):
     d.update(kw)
     return d
 
+def tsan(name="tsan", **kw):
+    d = {"name": name, "build": "tsan"}
+    d.update(kw)
+    return d
+
+def asan(name="asan", **kw):
+    d = {"name": name, "build": "asan"}
+    d.update(kw)
+    return d
+
 CHECKS = {
+    "C11": {"crate": "h_store", "bin": "c11", "level": "exploration", "legs": [
+        native(),
+        tsan(args={"quick": {"part": "stress", "budget-s": 25}, "thorough": {"part": "stress", "budget-s": 300}}),
+    ]},
+    "C02": {"crate": "h_store", "bin": "c02", "level": "fault_enumeration", "legs": [native()]},
     "C17": {"crate": "h_chain", "bin": "c17", "level": "exploration", "legs": [native()]},
 }
